@@ -90,10 +90,28 @@ def capture():
 _WRAPPERS = None
 
 
+def _is_einx_cache(o):
+    """Is this functools cache wrapper one of einx's?  Follows __wrapped__ / partial.func and looks at module names and
+    code file names (functools.wraps over a functools.partial copies the partial's metadata, whose module is 'functools')."""
+    import os
+    w = o
+    for _ in range(8):
+        w = getattr(w, "__wrapped__", None)
+        if w is None:
+            return False
+        for cand in (w, getattr(w, "func", None)):
+            m = getattr(cand, "__module__", None)
+            if isinstance(m, str) and m.startswith("einx"):
+                return True
+            code = getattr(cand, "__code__", None)
+            if code is not None and (os.sep + "einx" + os.sep) in code.co_filename:
+                return True
+    return False
+
+
 def clear_caches(rescan=False):
-    """Drop einx's compiled-function caches so that the next call traces again (functools.cache objects
-    reachable from the public einx functions' closures)."""
-    import einx
+    """Drop einx's compiled-function caches so that the next call traces again (functools cache objects created by
+    einx; adapters create new ones later, so callers that need those pass rescan=True)."""
     import gc
     import functools
     global _WRAPPERS
@@ -101,18 +119,13 @@ def clear_caches(rescan=False):
         _WRAPPERS = []
         for o in gc.get_objects():
             try:
-                if isinstance(o, functools._lru_cache_wrapper):
-                    w = getattr(o, "__wrapped__", None)
-                    mods = [getattr(w, "__module__", None), getattr(getattr(w, "func", None), "__module__", None)]
-                    if any(isinstance(m, str) and m.startswith("einx") for m in mods):
-                        _WRAPPERS.append(o)
+                if isinstance(o, functools._lru_cache_wrapper) and _is_einx_cache(o):
+                    _WRAPPERS.append(o)
             except Exception:
                 pass
-    n = 0
     for o in _WRAPPERS:
         o.cache_clear()
-        n += 1
-    return n
+    return len(_WRAPPERS)
 
 
 # ------------------------------------------------------------------ graph -> JSON
